@@ -15,7 +15,7 @@ def expectedC02 : List (String × String) := [
   ("file:io/csv.py", "143722bf0e79c91e"),
   ("file:io/csv_py3.py", "c1e744ce52bf68bb"),
   ("file:io/html.py", "860313482e8c113f"),
-  ("file:io/json.py", "5e1ef8b67f567a77"),
+  ("file:io/json.py", "88171728b8aebfec"),
   ("file:io/pickle.py", "40e23d34076571f8"),
   ("file:io/sources.py", "7c2b0cb2619a6b10"),
   ("file:io/text.py", "b72fac07748bae66"),
